@@ -19,6 +19,9 @@ def templates(tier, seed):
             ts.append(Template(f"raise_warning_scalar_lazy/{pred}/N={N}", t_opt, ("raise_warning", N, dict(pred=pred, scalar=True, lazy=True))))
             ts.append(Template(f"ignore_na_field/{pred}/N={N}", t_opt, ("ignore_na_field", N, dict(pred=pred))))
         ts.append(Template(f"alias/N={N}", t_opt, ("alias", N, {})))
+        # nullable integer extension dtype: ignore_na must hide <NA> like any other null
+        ts.append(Template(f"ignore_na_field/Int64/gt/N={N}", t_opt, ("ignore_na_field", N, dict(pred="gt", kind="Int"))))
+        ts.append(Template(f"element_wise/Int64/gt/ina=1/N={N}", t_opt, ("element_wise", N, dict(pred="gt", ina=True, kind="Int"))))
         for groups in (None, ["x"], ["x", "y"]):
             if groups and "y" in groups and N < 2:
                 continue  # with one row the key column only holds 'x': asking for group 'y' is a usage error by design
